@@ -647,6 +647,75 @@ class Gen:
                 d.stream(ST[key], text)
             self.dump("text_kv_product", d.finish())
 
+    # ------------------------------------------------------------- round 3: products for the fixed-layout streams and mac crash info
+    def round3(self):
+        rng = self.rng
+        for be in (False, True):
+            sur = struct.pack(">H" if be else "<H", 0xD800)
+            low = struct.pack(">H" if be else "<H", 0xDC00)
+
+            def u16s(t):
+                return t.encode("utf-16-be" if be else "utf-16-le")
+            bufs = [u16s("a == b") + bytes(244), bytes(256), sur + bytes(254), sur + low + bytes(252), low + sur + bytes(252),
+                    u16s("x") * 128, u16s("x") * 127 + sur, bytes(2) + sur * 127]
+            for size in (775, 776, 777):
+                for i, b0 in enumerate(bufs):
+                    body = b0 + bufs[(i + 3) % len(bufs)] + bufs[(i + 5) % len(bufs)] + bytes(8)
+                    d = Dump(be, ndir=1)
+                    d.stream(ST["assertion"], (body + bytes(4))[:size])
+                    self.dump("fixed_stream_product", d.finish())
+            for size in (11, 12, 13):
+                for validity in (0, 1, 2, 3, 4, 0xffffffff):
+                    d = Dump(be, ndir=1)
+                    d.stream(ST["breakpad"], (d.u32(validity, 7, 9) + b"\0")[:size])
+                    self.dump("fixed_stream_product", d.finish())
+            # strings referenced by RVA from the system info (u32) and the mac bootargs (u64)
+            for skind in ("good", "empty", "odd", "past_end", "surrogate", "rva_end", "rva_huge", "zero"):
+                for arch in (0, 9, 5, 12, 3, 10, 0xffff):
+                    for size in (55, 56):
+                        d = Dump(be, ndir=2)
+                        good = d.utf16("Service Pack 1")
+                        rva = {"good": good, "empty": d.utf16(""), "odd": d.utf16("x", length=3), "past_end": d.utf16("x", length=0x7ffffffe),
+                               "surrogate": d.utf16("", raw=sur), "rva_end": -1, "rva_huge": 0xfffffffc, "zero": 0}[skind]
+                        si = d.sysinfo(arch, csd=0 if rva == -1 else rva)
+                        d.stream(ST["system_info"], si[:size])
+                        if size == 56 and arch == 9:
+                            big = {"rva_huge": (1 << 64) - 4, "rva_end": 1 << 32}.get(skind, rva)
+                            for bsz in (11, 12):
+                                d2 = Dump(be, ndir=1)
+                                g2 = d2.utf16("-v debug=0x144")
+                                r2 = {"good": g2, "zero": 0}.get(skind, big if isinstance(big, int) and big >= 0 else 0)
+                                d2.stream(ST["mac_boot"], (d2.u32(ST["mac_boot"]) + d2.u64(r2))[:bsz])
+                                self.dump("fixed_stream_product", d2.finish())
+                        b = bytearray(d.finish())
+                        if rva == -1:
+                            at = len(b) - 2   # length word straddles the end of the file
+                            srva = d.dir[0][2]
+                            if size == 56:
+                                b[srva + 24:srva + 28] = struct.pack(">I" if be else "<I", at)
+                        self.dump("fixed_stream_product", bytes(b))
+            for text in (b"", b"[]", b"caf\xc3\xa9", b"\xff", b"\xc0\x80", b"\xed\xa0\x80", b"\xf4\x90\x80\x80", b"\xf0\x9f\x98\x80", b"ab\xe2\x82", b"\0\0"):
+                d = Dump(be, ndir=1)
+                d.stream(ST["moz_soft"], text)
+                self.dump("fixed_stream_product", d.finish())
+            # mac crash info: version x record count x record_start_size x string table x second record's version
+            for ver in (0, 1, 3, 4, 5, 6, 1 << 63):
+                for rcount in (1, 2, 21, (1 << 32) - 1):
+                    for start in (0, 16, 31, 32, 33, 40, 41, 47, 4096):
+                        for strs in ("five", "four", "unterminated", "bad_utf8", "none"):
+                            d = Dump(be, ndir=1)
+                            table = {"five": b"/bin/x\0msg\0sig\0bt\0m2\0", "four": b"a\0b\0c\0d\0", "unterminated": b"a\0b\0c\0d\0eeee",
+                                     "bad_utf8": b"a\0\xff\0c\0d\0e\0", "none": b""}[strs]
+                            ver2 = ver if (start + len(strs)) % 3 else ver + 1
+                            recs = []
+                            for v in (ver, ver2):
+                                fixed = d.u64(ST["mac_crash"], v, 1, 2, 3)      # 40 bytes: enough for every layout
+                                body = fixed + bytes(max(0, min(start, 64) - 40)) + table
+                                recs.append((len(body), d.add(body)))
+                            hdr = d.u32(ST["mac_crash"], rcount, start) + b"".join(d.u32(a, b) for a, b in recs) + bytes(8 * 18)
+                            d.stream(ST["mac_crash"], hdr)
+                            self.dump("mac_crash_product", d.finish())
+
     # ------------------------------------------------------------- base dumps from minidump-synth and /repo/testdata
     def synth_and_samples(self, per_synth, per_sample):
         rng = self.rng
@@ -748,6 +817,7 @@ class C01(PropBase):
         g.memory64(500 if q else 6000)
         g.exercised(500 if q else 6000)
         g.round2(400 if q else 5000)
+        g.round3()
         g.synth_and_samples(700 if q else 8000, 160 if q else 2500)
         g.random_bytes(200 if q else 3000)
         return g.cases + g.late, g.dist, False
